@@ -496,7 +496,7 @@ def illtyped(r, g: Gen):
         "not-on-nonbool": f"NOT {r.choice([i, 'instrument', 'null'])}",
         "point-nonliteral": f"visit.region OVERLAPS POINT({r.choice(['detector', chr(39) + 'a' + chr(39), 'null', '1 + 1'])}, 2)",
         "in-lhs-null": "null IN (1)",
-        "unbound-name": f"detector = :{r.choice(['nobody', 'x', 'D2'])}",
+        "unbound-name": f"detector = :{r.choice(['nobody', 'zz', 'D2'])}",
         "arith-on-bool": f"({b}) + 1 = 1",
     }[fam]
     return fam, s
@@ -549,24 +549,29 @@ def run(ctx: Ctx):
     props_ok = ctx.build_props(extra_targets=["Model/ParserCheck.vo"])
     if not props_ok:
         from harness.common import coq_make
-        coq_make(["Model/ParserCheck.vo"])
+        coq_make(["Model/ParserCheck.vo", "Proofs/ParserProofs.vo"])
 
     g = Gen(r)
-    n_valid = 320 if quick else 5000
-    n_garbage = 250 if quick else 4000
-    n_butler = 600 if quick else 8000
-    if not props_ok:           # something no longer checks: deepen the search (DESIGN 1.3 step 4)
-        n_valid, n_garbage, n_butler = max(n_valid, 3000), max(n_garbage, 2000), max(n_butler, 4000)
-        ctx.cov["search"] = "obligations broke: generator budget raised to the thorough size for the failing-input search"
+    sizes = (320, 250, 600) if quick else (3000, 3000, 6000)
+    _one_pass(ctx, g, r, sizes, first=True)
+    if ctx.broken and not ctx.oracle_failures:
+        # something no longer checks but the oracle held everywhere: deepen the search (DESIGN 1.3 step 4)
+        ctx.cov["search"] = "an obligation / tie broke without an oracle failure: second pass with the generator budget raised (3000 valid expressions + mutants, 2000 garbage strings, 3000 where strings)"
+        ctx.log("search: second, deeper pass")
+        _one_pass(ctx, g, r, (3000, 2000, 3000) if quick else (6000, 5000, 8000), first=False)
 
+
+def _one_pass(ctx: Ctx, g: Gen, r, sizes, first: bool):
+    n_valid, n_garbage, n_butler = sizes
     cases = []   # dicts: {s, kind, ...expectations}
     # corpus first
-    for f in sorted((VERIF / "corpus" / "C14").glob("*.json")):
+    for f in (sorted((VERIF / "corpus" / "C14").glob("*.json")) if first else []):
         for c in json.loads(f.read_text()):
             cases.append(dict(c, kind="corpus", corpus_file=f.name))
-    if ctx.replay:
+    if ctx.replay and first:
         rp = json.loads(Path(ctx.replay).read_text())
-        cases.append({"s": rp.get("s") or rp.get("where"), "kind": "replay", "must_reject": rp.get("must_reject")})
+        for s_ in ([rp.get("s") or rp.get("where")] if (rp.get("s") is not None or rp.get("where") is not None) else []) + list(rp.get("strings") or []):
+            cases.append({"s": s_, "kind": "replay", "must_reject": rp.get("must_reject"), "family": rp.get("family")})
 
     for _ in range(n_valid):
         G = g.bool_e(r.randint(0, 4)) if r.random() < 0.9 else r.choice([g.int_e(2), g.span_e(), g.point()])
@@ -628,8 +633,11 @@ def run(ctx: Ctx):
         tshow_by_chunk.append(out["tshow"])
 
     parse_cases, lex_cases, print_cases, meta_p, meta_l, meta_pr = [], [], [], [], [], []
+    canon_cases, meta_c = [], []
     groups: dict = {}
-    for idx, (c, rec) in enumerate(zip(cases, recs)):
+    # shortest strings first, so that the failing input written to a replay is the smallest one generated
+    for idx in sorted(range(len(cases)), key=lambda i: len(cases[i]["s"])):
+        c, rec = cases[idx], recs[idx]
         if rec is None:
             continue
         s = c["s"]
@@ -696,6 +704,9 @@ def run(ctx: Ctx):
             if tree is not None and "str" in rec:
                 print_cases.append(f"(mkr {ctree(tree)} {clist(f'({cs(k)}, {cs(v)})' for k, v in tshow.items() if has_node(tree, ('Time',)))} {ccodes(rec['str'])})")
                 meta_pr.append({"s": s, "str": rec["str"]})
+            if tree is not None:
+                canon_cases.append(f"(mkc {ctree(tree)} {ctimes(rec['times'])})")
+                meta_c.append({"s": s, "tree": drop_time_info(tree)})
         except ValueError as e:
             ctx.disagreement("encode", {"s": s}, f"observation not expressible in the model: {e}")
     # ---- O2: all spellings of one token list give one tree
@@ -715,6 +726,17 @@ def run(ctx: Ctx):
         for i in (bad or [])[:6]:
             ctx.disagreement(name, meta[i], "model differs from the implementation")
         ctx.log(f"correspondence {name}: {len(cs_)} cases, disagreements {None if bad is None else len(bad)}")
+    # every tree the real parser returned satisfies the `canonical` predicate of the round-trip theorems
+    # (the converse direction `parse ts = Ok t -> canonical t` is not proved; it is checked here on every case)
+    hdr_c = hdr.replace("Model.ParserCheck.", "Model.ParserCheck Proofs.ParserProofs.") + (
+        "Definition tun_of (tbl : list (string * option string)) (v : string) : string :=\n"
+        "  (fix go l := match l with (k, Some v') :: r => if String.eqb v' v then k else go r | _ :: r => go r | [] => \"?\"%string end) tbl.\n"
+        "Definition mkc (t : tree) (tb : list (string * option string)) := (t, tb).\n"
+        "Definition chk_canon (c : tree * list (string * option string)) := let '(t, tb) := c in canonical (tv_of tb) (tun_of tb) t.\n")
+    bad = ctx.coq_cases("canonical", hdr_c, canon_cases, "chk_canon", shard=700)
+    for i in (bad or [])[:6]:
+        ctx.disagreement("canonical", meta_c[i], "a tree returned by the real parser is not `canonical` (hypothesis of parse_print too strong)")
+    ctx.log(f"correspondence canonical: {len(canon_cases)} trees, disagreements {None if bad is None else len(bad)}")
 
     # ---- through a real Butler -----------------------------------------------------------------
     pool = [c for c in cases if c["kind"] in ("corpus", "replay")]
@@ -724,10 +746,16 @@ def run(ctx: Ctx):
     other = [c for c in rest if not c.get("must_reject")]
     pool += must[: n_butler // 2] + other[: n_butler - min(len(must), n_butler // 2)]
     seen, wl = set(), []
+
+    def light(c):
+        # the conversion to conjunctive normal form is exponential in nested NOT/AND/OR; keep the strings sent through
+        # a real Butler small enough that resource exhaustion (a C15/C05 matter) does not dominate the run
+        return c["kind"] in ("corpus", "replay") or len(re.findall(r"(?i)\b(and|or)\b", c["s"])) <= 4
     for c in pool:
-        if c["s"] not in seen and "\x00" not in c["s"]:
+        if c["s"] not in seen and "\x00" not in c["s"] and light(c):
             seen.add(c["s"])
             wl.append(c)
+    wl.sort(key=lambda c: (c["kind"] not in ("corpus", "replay"), len(c["s"])))
     bchunk = 60
     bpay = [{"wheres": [c["s"] for c in wl[i:i + bchunk]], "bind": {"d": 1, "ids": [1, 2], "names": ["g", "r"], "b": 2, "x": 1}} for i in range(0, len(wl), bchunk)]
     bres = parallel_workers("c14_impl", "butler_batch", bpay, timeout=900)
@@ -746,7 +774,11 @@ def run(ctx: Ctx):
             for api in ("query_data_ids", "query_dimension_records"):
                 o = rec[api]
                 ctx.hist(api, "ok" if o["ok"] else ("InvalidQueryError" if o["invalid_query"] else o["type"]))
-                if not o["ok"] and not o["invalid_query"]:
+                if not o["ok"] and not o["invalid_query"] and (
+                        o["type"] in ("MemoryError", "RecursionError") or (o["type"] == "OperationalError" and "too large" in o["msg"])):
+                    # resource exhaustion while executing a (valid) expression: outside this property's statement
+                    ctx.hist("resource_limit", o["type"])
+                elif not o["ok"] and not o["invalid_query"]:
                     ctx.oracle_fail(f"butler-exc:{o['type']}@{o['loc']}", {"where": s, "api": api, "error": o},
                                     f"{api}(where=...) raised {o['type']} instead of InvalidQueryError")
                 if o["ok"] and c.get("must_reject"):
